@@ -349,7 +349,7 @@ func c20TR(r *rand.Rand, name string, emit bool, d int) string {
 func init() {
 	run.Register(&run.Prop{
 		ID: "C20", Level: "exploration", MinNontrivial: 100,
-		Rule:        "a case is (iteration form, mode, n). gen: one live iterator is advanced by the real VM; the interpreter footprint (lengths of the data stack, path stack, scope stack and register file backing arrays — high-water marks — plus fork-stack capacity, read through the verif hook) is read after n and after 8n outputs and must not grow by more than 16 slots; loop: the form is run to its first result with $n = n and $n = 8n and the footprints compared the same way. Forms: every iteration builtin named by the property (range, while, until, repeat, recurse, limit, first, last, reduce, foreach, inputs over an endless iterator), each nested one level inside others, and parameterless self-recursive definitions whose recursive call is in syntactic tail position (branch of if/elif/else, right of a pipe whose left side is single-output, right operand of //, last operand of a comma, body of `as` incl. destructuring, after local defs, inner tail-recursive definitions). A prefix of the outputs / the result is also compared with the reference interpreter so that constant space is not obtained by dropping values. command: the real command consumes a 4 MiB and a 48 MiB stream from a pipe (9 line disciplines x consuming programs) with GODEBUG=gctrace=1; the largest reachable heap any collection cycle reports must not grow by more than 16 MB (peak RSS is recorded, not judged: it depends on the load of the machine). Non-trivial = every distinct (form, mode, n).",
+		Rule:        "a case is (iteration form, mode, n). gen: one live iterator is advanced by the real VM; the interpreter footprint (lengths of the data stack, path stack, scope stack and register file backing arrays — high-water marks — plus fork-stack capacity, read through the verif hook) is read after n and after 8n outputs and must not grow by more than 16 slots; loop: the form is run to its first result with $n = n and $n = 8n and the footprints compared the same way. Forms: every iteration builtin named by the property (range, while, until, repeat, recurse, limit, first, last, reduce, foreach, inputs over an endless iterator), each nested one level inside others, and parameterless self-recursive definitions whose recursive call is in syntactic tail position (branch of if/elif/else, right of a pipe whose left side is single-output, right operand of //, last operand of a comma, body of `as` incl. destructuring, after local defs, inner tail-recursive definitions). A prefix of the outputs / the result is also compared with the reference interpreter so that constant space is not obtained by dropping values. command: the real command consumes a 4 MiB and a 48 MiB stream from a pipe (9 line disciplines x consuming programs) with GODEBUG=gctrace=1; the largest reachable heap any collection cycle reports must not grow by more than 16 MB (peak RSS is recorded, not judged: it depends on the load of the machine). command-files: `inputs`, `input`, --slurp, --stream, -R and the per-input loop over 150 and over 600 one-line files with a descriptor limit of 32 (soft and hard) must reach the last file and print the count and sum of what the files hold. Non-trivial = every distinct (form, mode, n).",
 		Assumptions: []string{"interpreter state = the five structures exposed by VerifFootprint; Go heap retained elsewhere is measured only for the command, through the collector's own trace", "tail position is syntactic and fork-free; calls under try/label/left of // and functions with parameters are outside the statement"},
 		Body: func(c *run.Ctx) {
 			ns := []int{1000}
@@ -376,6 +376,10 @@ func init() {
 					}
 					kC20Cmd.Do(c, c20CmdCase{Style: style, Args: args})
 				}
+			}
+			// ... and over more files than the process may hold open
+			for _, t := range c20FilesCases {
+				kC20Files.Do(c, t)
 			}
 			r := c.Rand("c20")
 			for i, m := 0, c.N(600, 10000); i < m; i++ {
